@@ -19,6 +19,16 @@ CLAIMED["C19"] = ("Unbounded proof (bytes as 8-bit vectors, ids up to 2^32-1, an
   "Trusted: go/ssa, SMT solvers, slice capacity <= 2^48 (gc runtime maxAlloc). Iteration order and Multi signer lists: see clauses_not_decided in the evidence.",
   "contract-based deductive verification: WP over go/ssa + SMT (govc), byte bit-vector mode", "DESIGN.md 3 C19")
 
+CLAIMED["C04"] = ("Unbounded proof that each rule set's CommitRule / VoteRule / lock update / ChainLength equal spec functions transcribed from the published rules (chained HotStuff three-chain commit with lock on the two-chain head and safety-or-liveness vote; Fast-HotStuff two-chain commit with plain and aggregate-QC vote conditions; simplified HotStuff lock and view-gap commit), for every block forest (arbitrary heap), every lock state, missing blocks included; the ancestry query used by the vote rules is proved exact (C13).",
+  "Trusted: the network oracle for block fetching is a fixed function of the hash during a call (avail/fetched), SHA-256 collision resistance (hash determines view and parent) and 'views grow along parent links' as preconditions of the vote rules (as in the property statement); logging calls have no effect; go/ssa; SMT solvers.",
+  "contract-based deductive verification: WP over go/ssa + SMT (govc)", "DESIGN.md 3 C04")
+CLAIMED["C13"] = ("Unbounded proof over arbitrary heaps that the block store is content-addressed (every entry keyed by the hash the block carries: object invariant preserved by Store/Get/Extends; Get/LocalGet return a block with the requested hash, also on the fetch path given the Sender.RequestBlock contract), Store is idempotent, and Extends returns exactly the recursive ancestry predicate anc (loop invariant + induction lemma anc_frame, well-foundedness of anc checked).",
+  "Trusted: Sender.RequestBlock interface contract (ok => block.hash == hash; its gorums implementation is C12's RequestBlockQF), availability fixed during a call, EventLoop.TimeoutContext (trusted contract), mutex atomicity (interference between the two critical sections of Get is not modelled). PruneToHeight: see clauses_not_decided.",
+  "contract-based deductive verification: WP over go/ssa + SMT (govc)", "DESIGN.md 3 C13")
+CLAIMED["C17"] = ("Unbounded proof (every n up to 2^32, every branch factor 2..2^30, every assignment of distinct ids) that Parent is position (p-1)/bf, ChildrenOf is exactly positions p*bf+1..min(p*bf+bf,n-1), Root/IsRoot identify position 0, plus the lemma that these are inverse relations (p has parent i iff p is in i's child range), which gives exactly one root, one parent per non-root and membership in exactly one child list; SubTree never writes the shared position table (frame).",
+  "Trusted: slices.Index extern contract, go/ssa, SMT solvers (nonlinear integer arithmetic). SubTree == descendant set, heights: see clauses_not_decided.",
+  "contract-based deductive verification: WP over go/ssa + SMT (govc)", "DESIGN.md 3 C17")
+
 NA = {
  "C01": "cross-replica agreement over all schedules and Byzantine behaviours is a protocol-level inductive invariant over a distributed history; no contract on a function or object of one process can state it (DESIGN.md 3 C01)",
  "C05": "liveness / bounded progress under eventual synchrony is a property of whole executions of all replicas; partial-correctness contracts cannot state it (DESIGN.md 3 C05)",
